@@ -615,6 +615,11 @@ func c01roundTrip(c *mon.Ctx, k *mon.Case, stratum string, f *sfnt.Font, info *f
 	}
 }
 
+var (
+	c01bigTagsOnce sync.Once
+	c01bigTags     []language.Tag
+)
+
 func runC01(c *mon.Ctx) {
 	childOut := os.Getenv("C01_CHILD_HASH")
 	c.Stratum("constructed", c.N(500, 6000), func(k *mon.Case) {
@@ -814,7 +819,7 @@ func runC01(c *mon.Ctx) {
 			k.DistinctBytes(outU)
 		}
 	})
-	c.Require("rewrite:equal", "rewrite:edit-changed-the-bytes")
+	c.Require("rewrite:equal", "rewrite:edit-changed-the-bytes", "rich-layout:script-list>1KB")
 
 	c.Stratum("rich-layout", c.N(150, 4000), func(k *mon.Case) {
 		// whole fonts whose GSUB/GPOS/GDEF tables use every lookup type and
@@ -841,6 +846,29 @@ func runC01(c *mon.Ctx) {
 		if which != 2 {
 			o.NumLookups = 1 + r.IntN(8)
 			f.Gpos = otl.Info(r, otl.GPOS, o)
+		}
+		if k.Index%10 == 3 {
+			// a script list of more than a kilobyte: some twenty language
+			// systems with 20 to 60 optional features each
+			c01bigTagsOnce.Do(func() { c01bigTags = canonicalTags(c15langs) })
+			for _, tb := range []*gtab.Info{f.Gsub, f.Gpos} {
+				if tb == nil || len(tb.FeatureList) == 0 || len(c01bigTags) < 10 {
+					continue
+				}
+				sl := gtab.ScriptListInfo{}
+				for _, tag := range c01bigTags {
+					ft := &gtab.Features{Required: 0xFFFF}
+					if r.IntN(3) == 0 {
+						ft.Required = gtab.FeatureIndex(r.IntN(len(tb.FeatureList)))
+					}
+					for j := 20 + r.IntN(40); j > 0; j-- {
+						ft.Optional = append(ft.Optional, gtab.FeatureIndex(r.IntN(len(tb.FeatureList))))
+					}
+					sl[tag] = ft
+				}
+				tb.ScriptList = sl
+				k.Class("rich-layout:script-list>1KB")
+			}
 		}
 		if k.Index%25 == 7 && f.Gpos != nil {
 			// one lookup whose subtables together exceed 64 KiB: the lookup
